@@ -66,11 +66,27 @@ func vCryptoInstall() {
 	rt.Replace("(*"+vCryptoPkg+".AESKey).Encrypt", func(k *crypto.AESKey, msg []byte) ([]byte, error) {
 		return append([]byte(vSymPrefix(k)), msg...), nil
 	})
-	rt.Replace("(*"+vCryptoPkg+".AESKey).Decrypt", func(k *crypto.AESKey, msg []byte) ([]byte, error) {
+	dec := func(k *crypto.AESKey, msg []byte) ([]byte, error) {
 		pre := vSymPrefix(k)
 		if len(msg) < len(pre) || string(msg[:len(pre)]) != pre {
 			return nil, errors.New("verif: cannot decrypt")
 		}
 		return append([]byte{}, msg[len(pre):]...), nil
+	}
+	rt.Replace("(*"+vCryptoPkg+".AESKey).Decrypt", dec)
+	rt.Replace("(*"+vCryptoPkg+".AESKey).DecryptReuse", func(k *crypto.AESKey, dst, msg []byte) ([]byte, error) {
+		return dec(k, msg)
 	})
+	// key derivation (SLIP-21 over HMAC-SHA512) by an injective relabelling of the seed: "K.." -> "T.."
+	derive := func(seed []byte) (crypto.SymKey, error) {
+		raw := make([]byte, crypto.KeyBytes)
+		for i := range raw {
+			raw[i] = '.'
+		}
+		copy(raw, seed)
+		raw[0] = 'T'
+		return crypto.UnmarshallAESKey(raw)
+	}
+	rt.Replace(vCryptoPkg+".DeriveSymmetricKey", func(seed []byte, path string) (crypto.SymKey, error) { return derive(seed) })
+	rt.Replace("(*"+vCryptoPkg+".KeyDeriver).DeriveKey", func(d *crypto.KeyDeriver, seed []byte) (crypto.SymKey, error) { return derive(seed) })
 }
